@@ -970,3 +970,13 @@ T('k18c_routes_built_by_method', ['C18'], (META, "        routes = [('/', self.g
         return [html, ('/clastic_assets/', META_ASSETS_APP), as_json]
 
 ''' + _GET_MAIN_DEF), (META, "from .application import Application, NullRoute, RESERVED_ARGS", "from .application import Application, NullRoute, RESERVED_ARGS\nfrom .route import Route"))
+
+# R18.c: the placeholder the handler stores is what the code after the try statement reports
+B('k18c_placeholder_then_continue', ['C18'], 'R18.c', (META, "                peri_ctx = {'exc_content': repr(e)}\n", "                peri_ctx = {'exc_content': repr(e)}\n                continue\n"))
+B('k18c_placeholder_other_name', ['C18'], 'R18.c', (META, "                peri_ctx = {'exc_content': repr(e)}\n", "                failed_ctx = {'exc_content': repr(e)}\n"),
+  (META, "        for peri in self.peripherals:\n            try:\n                peri_ctx = inject(peri.get_context, kwargs)", "        peri_ctx = {}\n        for peri in self.peripherals:\n            try:\n                peri_ctx = inject(peri.get_context, kwargs)"))
+B('k18c_general_items_placeholder_unused', ['C18'], 'R18.c', (META, "            except Exception as e:\n                cur_general_items = []\n", "            except Exception as e:\n                no_items = []\n"),
+  (META, "            try:\n                cur_general_items = inject(peri.get_general_items, kwargs)", "            cur_general_items = []\n            try:\n                cur_general_items = inject(peri.get_general_items, kwargs)"))
+T('k18c_placeholder_stored_then_continue', ['C18'], (META, "                peri_ctx = {'exc_content': repr(e)}\n            full_ctx.setdefault(peri.group_key, {}).update(peri_ctx)\n",
+                                                    "                full_ctx.setdefault(peri.group_key, {}).update({'exc_content': repr(e)})\n                continue\n            full_ctx.setdefault(peri.group_key, {}).update(peri_ctx)\n"))
+T('k18c_placeholder_two_names', ['C18'], (META, "                peri_ctx = {'exc_content': repr(e)}\n", "                failure = repr(e)\n                peri_ctx = {'exc_content': failure}\n"))
